@@ -207,6 +207,57 @@ def check_show_to(P, ctx):
     ctx.floor(rule, 6)
 
 
+def check_position_threaded(P, ctx):
+    """a show function returns the position after what it wrote: the position each sink call returns is taken over (assigned to the
+    running position or returned), never dropped, and the value finally returned is that running position or a sink call's result"""
+    rule = 'C14.position-threaded'
+    SINKS = {'print_to', 'print_to_with', 'show_to', 'format_to', 'format_to_va'}
+    n_fn = 0
+    for T, fname in sorted(P.slots_of_class('Show', 'show')):
+        if not P.types[T]['unit'].startswith('src/'):
+            continue
+        fn = P.fn(fname)
+        g = P.cfg(fn, lower_ternary=True)
+        ctx.fn(fn)
+        n_fn += 1
+        bad = None
+        posvars = set()
+        for n in g.live():
+            if n['expr'] is None:
+                continue
+            e = ir.top_nocast(n['expr'])
+            calls = [c for c in ir.calls(n['expr']) if ir.callee_name(c) in SINKS]
+            for c in calls:
+                taken = False
+                if e[0] == 'assign' and e[1] == '=' and ir.top_nocast(e[3]) == c:
+                    taken = True
+                    t = ir.top_nocast(e[2])
+                    if t[0] in ('local', 'param'):
+                        posvars.add(t[:3] if t[0] == 'local' else ('param', t[2]))
+                elif n['kind'] == 'ret' and e == c:
+                    taken = True
+                elif e[0] == 'assign' and e[1] == '+=' and ir.top_nocast(e[3]) == c:
+                    taken = True
+                # a sink call used as the position argument of another sink call is threaded too
+                elif any(c2 is not c and ir.callee_name(c2) in SINKS and len(c2[2]) > 1 and ir.top_nocast(c2[2][1]) == c for c2 in ir.calls(n['expr'])):
+                    taken = True
+                if not taken:
+                    bad = bad or 'the position returned by %s at %s is dropped: what it wrote is not counted' % (ir.callee_name(c), g.describe(n))
+        posvars.add(('param', 2))
+        for n in g.live():
+            if n['kind'] == 'ret' and n['expr'] is not None:
+                e = ir.top_nocast(n['expr'])
+                okr = (e[0] == 'call' and ir.callee_name(e) in SINKS) or (e[0] == 'param' and ('param', e[2]) in posvars) or (e[0] == 'local' and e[:3] in posvars)
+                if e[0] == 'param' and e[2] == 2:
+                    # returning the incoming position unchanged is right only if nothing was written on the way
+                    wrote = any(m['expr'] is not None and any(ir.callee_name(c) in SINKS for c in ir.calls(m['expr'])) and g.must_pass(n['id'], [m['id']]) is False and
+                                n['id'] in g.reach_from(m['id']) for m in g.live())
+                if not okr:
+                    bad = bad or 'returns `%s`, which is not the running position' % ir.fmt(ir.canon(e))[:40]
+        ctx.check(bad is None, rule, '%s.Show.show' % T, site(fn), 'every position a sink hands back is carried on, and the final one is returned', [bad] if bad else None)
+    ctx.floor(rule, 8)
+
+
 def check_string_sink(P, ctx):
     from .rules_c16 import check_sizes
     before = len(ctx.obs)
@@ -244,6 +295,7 @@ def run(ctx, load):
     ctx.stats['configs'] = ['default']
     check_print(P, ctx)
     check_show_to(P, ctx)
+    check_position_threaded(P, ctx)
     check_string_sink(P, ctx)
 
 
